@@ -1,2 +1,112 @@
-(* C18 - placeholder while the plugin is being brought up *)
-From MafVerif Require Import lib.Base model.SorterWorld.
+(* C18 - The sorter leaves no spill files or descriptors behind, even when
+   I/O fails.  Property theorems only; proofs are in proofs/SorterWorldFacts.v.
+
+   The theorems are about model/SorterWorld.v: the I/O protocol of
+   Sorter.add / __spill / __iter__ / close, _SortedIterator, _MergingIterator
+   (repaired code), where each of the nine I/O calls is a step that may fail
+   once (single-shot fault schedule: index of the failing call + whether its
+   errno is ENOENT).  They hold for EVERY item type, key function, key order,
+   codec and sorted()/heapq oracle (no hypothesis on them), every capacity,
+   policy, history of operations and fault position.
+
+   Level: partial.  What is proved here is the resource discipline (b):
+   "after any history, with or without a fault, close() until it returns
+   normally leaves no file, no descriptor and no open handle, and it returns
+   normally within three calls".  NOT proved in Coq (checked on /repo by the
+   oracle of harness/props/C18.py at every fault position of small workloads,
+   and by the model-vs-/repo correspondence of the same runs):
+     (a) the injected fault surfaces as OSError from the operation in
+         progress (except ENOENT in os.remove during close);
+     (b') two calls of close() suffice (the proof below gives three: it does
+         not use that a registered descriptor is always still open);
+     (c) if MafWriter.close returns normally the output holds every record.
+   Full statement kept for reference:
+     forall workload fault, let (outcome, world) := run workload fault in
+       (fault_hit -> surfaced outcome) /\ clean (close_until_ok world) /\ closes <= 2
+       /\ (writer_close_ok -> every written record is in the output). *)
+From MafVerif Require Import lib.Base model.Sorter model.SorterWorld proofs.SorterWorldFacts.
+
+Section C18.
+  Variables A K D : Type.
+  Variable keyf : A -> res K.
+  Variable lt : K -> K -> bool.
+  Variable enc : A -> D.
+  Variable dec : D -> res A.
+  Variable pick_min : forall X : Type, (X -> X -> bool) -> list X -> option (X * list X).
+
+  (* every workload (capacity, policy, any history of add / iterate-k-then-
+     abandon / close, stopping at the first exception or not), every fault
+     position and errno flavour, also no fault at all: after close() has been
+     called until it returned normally - which takes at most three calls -
+     no spill file, no descriptor, no gzip handle is left *)
+  Theorem C18_no_leak_partial :
+    forall (c : nat) (al stop : bool) (ops : list (op A)) (f : option (nat * bool)) obs cl w',
+      w_workload A K D keyf lt enc dec pick_min c al stop ops f = (obs, cl, w') ->
+      clean D w' /\ (length cl <= 3)%nat /\ last cl (Some AssertionError) = None.
+  Proof. exact (no_leak A K D keyf lt enc dec pick_min). Qed.
+
+  (* at every point between two operations of any history, faulted or not:
+     the files on disk are registered for cleanup, the open descriptors are
+     registered for cleanup, and no gzip handle is open *)
+  Theorem C18_nothing_unregistered_between_operations :
+    forall (stop : bool) (ops : list (op A)) (c : nat) (al : bool) (f : option (nat * bool)) obs s' w',
+      w_run A K D keyf lt enc dec pick_min stop (wnew K D c al) ops (world0 D f) = (obs, s', w') ->
+      WI K D s' w'.
+  Proof.
+    intros stop ops c al f obs s' w' H.
+    exact (run_WI A K D keyf lt enc dec pick_min stop ops _ _ obs s' w' (WI_new K D c al f) H).
+  Qed.
+
+  (* one call of close(): every registered descriptor is released whatever
+     fails; if it returns normally nothing is left and nothing stays registered *)
+  Theorem C18_close_releases :
+    forall (s : wsorter K D) (w : world D) e s' w',
+      WI K D s w -> w_close K D s w = (e, s', w') ->
+      fds D w' = [] /\ (e = None -> clean D w' /\ wpaths K D s' = []).
+  Proof.
+    intros s w e s' w' I H.
+    destruct (close_spec K D s w e s' w' I H) as (_ & F & _ & C & _). split; assumption.
+  Qed.
+End C18.
+Print Assumptions C18_no_leak_partial.
+Print Assumptions C18_nothing_unregistered_between_operations.
+Print Assumptions C18_close_releases.
+
+(* ---------- non-vacuity: 5 records, capacity 2, always spill: 44 I/O calls;
+   fault-free, then a fault in gzip.open(w) (call 1: the pinned tree leaked a
+   file and a descriptor here), in a read of the merge (call 30), in os.close
+   (call 38) and in os.remove (call 39, EIO: second close() needed) ---------- *)
+Definition zkey (x : Z * Z) : res Z := Ok (fst x).
+Definition zenc (x : Z * Z) : Z * Z := x.
+Definition zdec (x : Z * Z) : res (Z * Z) := Ok x.
+Definition demo_ops : list (op (Z * Z)) :=
+  [OpAdd _ (3, 0); OpAdd _ (1, 1); OpAdd _ (2, 2); OpAdd _ (5, 3); OpAdd _ (4, 4); OpIter _ 7].
+Definition demo (f : option (nat * bool)) :=
+  let '(obs, cl, w) := w_workload (Z * Z) Z (Z * Z) zkey Z.ltb zenc zdec leftmost_min 2 true true demo_ops f in
+  (map (fun o => (o_out _ o, map fst (o_items _ o), Z.of_nat (o_files _ o), Z.of_nat (o_open _ o))) obs, cl,
+   (Z.of_nat (length (files _ w)), Z.of_nat (length (fds _ w)), Z.of_nat (length (log _ w))), hit _ w).
+
+Example demo_fault_free :
+  demo None = ([(OOk, [], 0, 0); (OOk, [], 1, 1); (OOk, [], 1, 1); (OOk, [], 2, 2); (OOk, [], 2, 2);
+                (OOk, [1; 2; 3; 4; 5], 3, 3)], [None], (0, 0, 44), None).
+Proof. vm_compute. reflexivity. Qed.
+Example demo_fault_in_gzip_open :
+  demo (Some (1%nat, false)) =
+  ([(OOk, [], 0, 0); (ORaise (OSError false), [], 1, 1)], [None], (0, 0, 4), Some COpenW).
+Proof. vm_compute. reflexivity. Qed.
+Example demo_fault_in_merge_read :
+  demo (Some (30%nat, false)) =
+  ([(OOk, [], 0, 0); (OOk, [], 1, 1); (OOk, [], 1, 1); (OOk, [], 2, 2); (OOk, [], 2, 2);
+    (ORaise (OSError false), [1], 3, 3)], [None], (0, 0, 37), Some CRead).
+Proof. vm_compute. reflexivity. Qed.
+Example demo_fault_in_os_close :
+  snd (fst (fst (demo (Some (38%nat, false))))) = [Some (OSError false); None].
+Proof. vm_compute. reflexivity. Qed.
+Example demo_fault_in_os_remove :
+  (snd (fst (fst (demo (Some (39%nat, false))))), snd (fst (demo (Some (39%nat, false)))))
+  = ([Some (OSError false); None], (0, 0, 45)).
+Proof. vm_compute. reflexivity. Qed.
+Example demo_enoent_in_os_remove_is_tolerated :
+  (snd (fst (fst (demo (Some (39%nat, true))))), snd (fst (demo (Some (39%nat, true)))))
+  = ([None], (0, 0, 44)).
+Proof. vm_compute. reflexivity. Qed.
